@@ -367,6 +367,12 @@ pub fn load_known() -> Vec<Known> {
     v
 }
 
+/// the listed findings as (property, signature pattern), loaded once per process
+pub fn known_patterns() -> std::sync::Arc<Vec<(String, String)>> {
+    static CACHE: std::sync::OnceLock<std::sync::Arc<Vec<(String, String)>>> = std::sync::OnceLock::new();
+    CACHE.get_or_init(|| std::sync::Arc::new(load_known().into_iter().map(|k| (k.prop, k.sig)).collect())).clone()
+}
+
 /// simple glob: `*` matches any (possibly empty) run of characters
 pub fn glob_match(pat: &str, text: &str) -> bool {
     let parts: Vec<&str> = pat.split('*').collect();
